@@ -313,13 +313,35 @@ func (ans *answer) sendException(e error) releaseList {
 	return rl
 }
 
+// answerIDInUse reports whether id still names a live entry of the
+// answers table.  An answer that has received its Finish and whose
+// results are ready, but which is not yet marked returnSent, only waits
+// for the goroutine that sent the Return to re-acquire c.mu and destroy
+// it.  The remote vat may reuse the ID as soon as it has seen that
+// Return, so such an entry is detached from the table instead of being
+// reported as a reused ID.  The caller must be holding onto c.mu.
+func (c *Conn) answerIDInUse(id answerID) bool {
+	ans := c.answers[id]
+	if ans == nil {
+		return false
+	}
+	if ans.flags&finishReceived != 0 && ans.flags&resultsReady != 0 && ans.flags&returnSent == 0 {
+		delete(c.answers, id)
+		return false
+	}
+	return true
+}
+
 // destroy removes the answer from the table and returns the clients to
 // release.  The answer must have sent a return and received a finish.
 // The caller must be holding onto ans.c.mu.
 //
 // shutdown has its own strategy for cleaning up an answer.
 func (ans *answer) destroy() (releaseList, error) {
-	delete(ans.c.answers, ans.id)
+	if ans.c.answers[ans.id] == ans {
+		// The entry may already have been detached by answerIDInUse.
+		delete(ans.c.answers, ans.id)
+	}
 	rl := releaseList(ans.resultCapTable)
 	if ans.flags&releaseResultCapsFlag == 0 || len(ans.exportRefs) == 0 {
 		return rl, nil
